@@ -347,6 +347,11 @@ def run(ctx, rep):
             cls, detail = None, 'mutual recursion: termination not decided'
         rep.ob('R7.4', f'{p}:recursion', cls, detail, where=ctx.lib.bodies[p].span)
     rep.extra['recursive_functions'] = n_rec
+    # the range APIs compute the same times for many days: their own failure sites (a division by the day threshold or the
+    # parallelism, an unwrap on a channel result) are inventoried by C15 (R15.5, R15.3 division-guarded) and included here
+    from . import shared, c15 as _c15
+    shared.include(ctx, rep, _c15.run, {'R15.5', 'R15.3'}, keys=lambda k: k != 'same-parallelism-value' and k != 'work-list',
+                   why='computing times for a range must not panic either')
 
 
 def classify_recursion(ctx, p):
